@@ -680,22 +680,46 @@ type n09Val struct {
 	Op string `json:"op"` // set incr append
 	B  []byte `json:"b,omitempty"`
 	N  int64  `json:"n,omitempty"`
+	L  int    `json:"l,omitempty"` // set/append: payload of L bytes derived from (L, N) instead of B (large values)
+}
+
+func (v *n09Val) bytes() []byte {
+	if v.L <= 0 {
+		return append([]byte{}, v.B...)
+	}
+	b := make([]byte, v.L)
+	h := vHash("n09val", v.L, v.N)
+	for i := range b {
+		b[i] = byte(h >> (8 * uint(i%8)))
+		if i%8 == 7 {
+			h = h*6364136223846793005 + 1442695040888963407
+		}
+	}
+	return b
 }
 
 func (v *n09Val) data() *protocol.LockCommandData {
 	switch v.Op {
 	case "set":
-		return protocol.NewLockCommandDataSetData(append([]byte{}, v.B...))
+		return protocol.NewLockCommandDataSetData(v.bytes())
 	case "incr":
 		return protocol.NewLockCommandDataIncrData(v.N)
 	case "append":
-		return protocol.NewLockCommandDataAppendData(append([]byte{}, v.B...))
+		return protocol.NewLockCommandDataAppendData(v.bytes())
 	}
 	return nil
 }
 
+// n09Hex prints long byte strings abbreviated.
+func n09Hex(b []byte) string {
+	if len(b) <= 40 {
+		return fmt.Sprintf("%x", b)
+	}
+	return fmt.Sprintf("%x..(%d bytes, fnv %x)", b[:16], len(b), vHash(b))
+}
+
 type n09Op struct {
-	K    string  `json:"k"` // lock unlock rotate restart join stop stall unstall drop sync
+	K    string  `json:"k"` // lock unlock rotate restart join stop stall unstall drop sync hold unhold
 	T    int     `json:"t,omitempty"` // Timeout in seconds (C10 scripts only; the C09 workload never waits)
 	F    int     `json:"f,omitempty"`
 	Wipe bool    `json:"wipe,omitempty"`
@@ -715,7 +739,11 @@ func (o n09Op) String() string {
 	case "lock", "unlock":
 		s := fmt.Sprintf("%s db%d k%d id%d flag=%#x E=%d/%#x count=%d rcount=%d", o.K, o.Db, o.Key, o.Id, o.Flag, o.E, o.EF, o.Cnt, o.Rc)
 		if o.V != nil {
-			s += fmt.Sprintf(" val=%s(%x,%d)", o.V.Op, o.V.B, o.V.N)
+			if o.V.L > 0 {
+				s += fmt.Sprintf(" val=%s(%d bytes #%d)", o.V.Op, o.V.L, o.V.N)
+			} else {
+				s += fmt.Sprintf(" val=%s(%x,%d)", o.V.Op, o.V.B, o.V.N)
+			}
 		}
 		return s
 	case "join":
@@ -776,6 +804,7 @@ type n09Info struct {
 	knownCompactedLog                  int
 	knownLeftOver                      int
 	leaderRestarts                     int
+	holds, bigValues                   int
 	excludedEmptyRotation              int
 	excludedEmptyRingJoin              int
 	excludedRotationOverlap            int
@@ -815,6 +844,7 @@ type n09Env struct {
 	info     n09Info
 	noCreateByUpdate bool
 	harnessTainted   string
+	held             []*ReplicationServer
 	awaitFirstLive   *n09Slot
 	awaitLiveBase, awaitFilesBase int
 	stopNudge chan struct{}
@@ -898,6 +928,7 @@ func (e *n09Env) nudger() {
 }
 
 func (e *n09Env) close() {
+	e.unholdSenders()
 	if e.stopNudge != nil {
 		close(e.stopNudge)
 		<-e.nudgeDone
@@ -1031,7 +1062,7 @@ func (e *n09Env) send(op n09Op) {
 func (e *n09Env) newLeaderClient() {
 	e.client = NewMemWaiterServerProtocol(e.leader.inst.slock)
 	_ = e.client.SetResultCallback(func(_ *MemWaiterServerProtocol, cmd *protocol.LockCommand, result uint8, lcount uint16, lrcount uint8, data []byte) error {
-		e.logf("    <- %s lcount=%d lrcount=%d data=%x", aResultName(result), lcount, lrcount, data)
+		e.logf("    <- %s lcount=%d lrcount=%d data=%s", aResultName(result), lcount, lrcount, n09Hex(data))
 		return nil
 	})
 }
@@ -1078,6 +1109,34 @@ func (e *n09Env) restartLeader() string {
 	mgr := leader.inst.slock.replicationManager
 	e.logf("    (leader restarted: position %s, ring seq %d)", FormatAofId(mgr.currentAofId), mgr.bufferQueue.seq)
 	return ""
+}
+
+// holdSenders takes the write mutex of every replication channel of the leader - what a socket write that blocks for a
+// moment does: SendProcess stops in front of its next write while the ring keeps filling, and on unholdSenders it pops
+// the whole burst in one go (one batch). Held only across a few lock/unlock operations.
+func (e *n09Env) holdSenders() {
+	if e.held != nil {
+		return
+	}
+	mgr := e.leader.inst.slock.replicationManager
+	mgr.glock.Lock()
+	chans := append([]*ReplicationServer{}, mgr.serverChannels...)
+	mgr.glock.Unlock()
+	for _, ch := range chans {
+		ch.glock.Lock()
+	}
+	e.held = chans
+	if e.held == nil {
+		e.held = []*ReplicationServer{}
+	}
+	e.info.holds++
+}
+
+func (e *n09Env) unholdSenders() {
+	for _, ch := range e.held {
+		ch.glock.Unlock()
+	}
+	e.held = nil
 }
 
 // rotate is Admin.commandHandleRewriteAofCommand; before the switch the harness copies the file
@@ -1403,7 +1462,11 @@ func n09DirIds(dir string) string {
 			fmt.Fprintf(&sb, " [%v]", err)
 		}
 		if dat, derr := os.ReadFile(f + ".dat"); derr == nil {
-			fmt.Fprintf(&sb, " | .dat %d bytes: %x", len(dat), dat)
+			if len(dat) > 300 {
+				fmt.Fprintf(&sb, " | .dat %d bytes: %x.. (fnv %x)", len(dat), dat[:120], vHash(dat))
+			} else {
+				fmt.Fprintf(&sb, " | .dat %d bytes: %x", len(dat), dat)
+			}
 		}
 		sb.WriteByte('\n')
 	}
@@ -1468,7 +1531,7 @@ func n09DescribeState(m map[string]*n09KeyState) string {
 	sort.Strings(keys)
 	var sb strings.Builder
 	for _, k := range keys {
-		fmt.Fprintf(&sb, "      %s value=%x:", k, m[k].Data)
+		fmt.Fprintf(&sb, "      %s value=%s:", k, n09Hex(m[k].Data))
 		for _, h := range m[k].Holds {
 			fmt.Fprintf(&sb, " [id%d depth=%d count=%d rcount=%d ef=%#x deadline=%d]", int(h.Id[0])|int(h.Id[1])<<8, h.Depth, h.Count, h.Rcount, h.EF, h.Expried)
 		}
@@ -1489,7 +1552,7 @@ func n09CompareState(lead, fol map[string]*n09KeyState) string {
 			continue
 		}
 		if !bytes.Equal(l.Data, f.Data) {
-			diffs = append(diffs, fmt.Sprintf("%s value: leader %x follower %x", k, l.Data, f.Data))
+			diffs = append(diffs, fmt.Sprintf("%s value: leader %s follower %s", k, n09Hex(l.Data), n09Hex(f.Data)))
 		}
 		if len(l.Holds) != len(f.Holds) {
 			diffs = append(diffs, fmt.Sprintf("%s: %d holders on the leader, %d on the follower", k, len(l.Holds), len(f.Holds)))
@@ -2019,8 +2082,17 @@ func n09RunCluster(c *n09Case) (out n09Out) {
 	}
 	for i, op := range c.Ops {
 		e.logf("#%d %v", i, op)
+		if op.K != "lock" && op.K != "unlock" && op.K != "hold" {
+			e.unholdSenders()
+		}
 		switch op.K {
+		case "hold":
+			e.holdSenders()
+		case "unhold":
 		case "lock", "unlock":
+			if op.V != nil && op.V.L > 4000 {
+				e.info.bigValues++
+			}
 			e.send(op)
 		case "rotate":
 			e.rotate()
@@ -2061,6 +2133,7 @@ func n09RunCluster(c *n09Case) (out n09Out) {
 			}
 		}
 	}
+	e.unholdSenders()
 	// final quiescence: every follower slot is connected and unstalled
 	for i, s := range e.slots {
 		if s.stall {
